@@ -54,15 +54,20 @@ def cmd_check(a):
         print("HARNESS-ERROR model KATs failed:\n" + traceback.format_exc())
         return 2
 
-    # determinism spot check (in-process, same plan twice); the cross-process version is a selftest
+    # determinism spot check (same plan twice in one forked child); the cross-process version is a selftest.
+    # This interpreter itself never executes the library under test before the search: every chunk of runs is
+    # forked from a clean state.
     for wname, _, _ in worlds:
-        world = runner.load_world(wname)
-        for i in range(a.det_runs):
-            p1, c1 = runner.one_run(world, seed, tier, 10_000_000 + i)
-            p2, c2 = runner.one_run(world, seed, tier, 10_000_000 + i)
-            if p1 != p2 or c1.digest() != c2.digest():
-                print("HARNESS-ERROR nondeterministic run world=%s index=%d" % (wname, 10_000_000 + i))
+        try:
+            notes = runner.isolated(_det_spot_check, wname, seed, tier, a.det_runs)
+        except Exception as e:
+            print("HARNESS-ERROR determinism spot check: %s" % (str(e)[-400:],))
+            return 2
+        for n in notes:
+            if n.startswith("HARNESS"):
+                print(n)
                 return 2
+            print(n)
 
     totals = []
     for wname, share, chunk in worlds:
@@ -81,6 +86,8 @@ def cmd_check(a):
         print("NOTE harness exception in world=%s (%d runs): %s" % (wname, n, str(h).strip().splitlines()[-1][:200]))
 
     known = findings.load()
+    multi_tried = 0
+    unrepro = []
     new_violations = []
     known_seen = []
     other = {}
@@ -100,15 +107,56 @@ def cmd_check(a):
                 remaining = shrink_budget - (time.time() - t_shr)
                 if remaining <= 1 and fps:
                     break
+                from dsim.kernel import multi
                 small, info = shr.shrink(world, plan, prop, cls, wall_s=max(2.0, min(20.0, remaining)))
-                ctx = run_plan(world, small)
-                vv = has_violation(ctx, prop, cls)
+                fresh = multi.in_fresh_process(tot["world"], [small], prop, cls) if info.get("reproduced") else None
+                if not (fresh and fresh["reproduced"]):
+                    # in-process shrinking is unreliable when the library keeps state between objects: redo it with
+                    # every candidate in a forked child, then confirm in a fresh interpreter
+                    small, info = shr.shrink(world, plan, prop, cls, wall_s=max(5.0, min(30.0, remaining)), isolate=True)
+                    fresh = multi.in_fresh_process(tot["world"], [small], prop, cls) if info.get("reproduced") else None
+                vv = fresh["violation"] if (fresh and fresh["reproduced"]) else None
+                multi_plans = None
+                if vv is not None:
+                    class _F(object):
+                        faults = {}
+
+                        def digest(self_inner, _d=fresh["digest"]):
+                            return _d
+                    ctx = _F()
                 if vv is None:
-                    # must not happen: shrink only keeps reproducing candidates
-                    print("HARNESS-ERROR violation did not reproduce on re-execution (world=%s class=%s index=%s)" % (
-                        tot["world"], cls, plan.get("index")))
-                    return 2
+                    # the violation needs the runs executed before it in the same interpreter: the library keeps
+                    # state between independent objects.  Replay the whole sequence in a fresh interpreter.
+                    if multi_tried >= 3:
+                        continue
+                    multi_tried += 1
+                    cs = plan.get("chunk_start", plan.get("index", 0))
+                    seq = []
+                    for ix in range(cs, plan["index"] + 1):
+                        seq.append(_regen(runner, world, seed, tier, ix))
+                    r0 = multi.in_fresh_process(tot["world"], seq, prop, cls)
+                    if not r0 or not r0["reproduced"]:
+                        unrepro.append((tot["world"], cls, plan.get("index")))
+                        continue
+                    seq = multi.shrink_prefix(tot["world"], seq, prop, cls)
+                    r1 = multi.in_fresh_process(tot["world"], seq, prop, cls)
+                    if not r1 or not r1["reproduced"]:
+                        unrepro.append((tot["world"], cls, plan.get("index")))
+                        continue
+                    vv = r1["violation"]
+                    small = seq[-1]
+                    multi_plans = seq
+                    info = {"execs": 0, "reproduced": True, "multi_run_history": len(seq)}
+
+                    class _C(object):
+                        faults = {}
+
+                        def digest(self_inner):
+                            return r1["digest"]
+                    ctx = _C()
                 fp = world.fingerprint(small, vv)
+                if multi_plans is not None:
+                    fp = "after %d earlier run(s) in the same process: %s" % (len(multi_plans) - 1, fp)
                 if fp in fps:
                     continue
                 fps[fp] = True
@@ -116,7 +164,7 @@ def cmd_check(a):
                         and not findings.match(known, prop, cls, fp):
                     continue
                 kf = findings.match(known, prop, cls, fp)
-                rec = {"plan": small, "violation": vv, "fingerprint": fp, "world": tot["world"],
+                rec = {"plan": small, "plans": multi_plans, "violation": vv, "fingerprint": fp, "world": tot["world"],
                        "shrunk_from_steps": len(plan["steps"]), "shrink": info, "digest": ctx.digest(),
                        "faults": ctx.faults}
                 if kf:
@@ -124,6 +172,10 @@ def cmd_check(a):
                 else:
                     new_violations.append(rec)
 
+    if unrepro and not new_violations and not known_seen:
+        for w_, c_, i_ in unrepro[:3]:
+            print("HARNESS-ERROR violation did not reproduce, neither alone nor after the runs before it (world=%s class=%s index=%s)" % (w_, c_, i_))
+        return 2
     printed_known = set()
     for kf, rec in known_seen:
         key = (kf["class"], kf["fingerprint"])
@@ -146,6 +198,36 @@ def cmd_check(a):
     return 1 if new_violations else 0
 
 
+def _det_spot_check(wname, seed, tier, n):
+    from dsim.kernel import runner
+    world = runner.load_world(wname)
+    notes = []
+    for i in range(n):
+        p1, c1 = runner.one_run(world, seed, tier, 10_000_000 + i)
+        p2, c2 = runner.one_run(world, seed, tier, 10_000_000 + i)
+        if p1 != p2:
+            notes.append("HARNESS-ERROR nondeterministic planner world=%s index=%d" % (wname, 10_000_000 + i))
+            break
+        if c1.digest() != c2.digest():
+            # same plan, same process, different observations: the library under test keeps state between
+            # independent objects (the simulator itself is checked by selftest-determinism on the unchanged tree).
+            # Not an abort: the invariants decide; violations that need earlier runs are replayed as multi-run histories.
+            notes.append("NOTE executing one plan twice in one process gave different observations (world=%s index=%d): "
+                         "state is kept between runs" % (wname, 10_000_000 + i))
+            break
+    return notes
+
+
+def _regen(runner, world, seed, tier, ix):
+    from dsim.kernel.rng import Rng, run_seed
+    sd = run_seed(seed, world.NAME, ix)
+    plan = world.gen_plan(Rng(sd), tier, ix)
+    plan.setdefault("world", world.NAME)
+    plan["run_seed"] = "%064x" % sd
+    plan["index"] = ix
+    return plan
+
+
 def cmd_replay(a):
     from dsim.kernel import runner
     from dsim.kernel.core import has_violation, run_plan
@@ -153,7 +235,12 @@ def cmd_replay(a):
     with open(a.path) as f:
         rp = json.load(f)
     world = runner.load_world(rp["world"])
-    ctx = run_plan(world, rp["plan"], keep_log=True)
+    if rp.get("plans"):
+        # a history spanning several runs of one process: execute them in order, judge the last
+        from dsim.kernel import multi
+        ctx = multi.run_sequence(world, rp["plans"], keep_log=True)
+    else:
+        ctx = run_plan(world, rp["plan"], keep_log=True)
     exp = rp["expect"]
     v = has_violation(ctx, rp["property"], exp["class"])
     if a.verbose:
